@@ -17,7 +17,8 @@ def contract_obs(ctx):
     obs = C03.contract_obs(ctx)
     for cfg, n in (('avx2', 4), ('avx512', 8)):
         T = lanes.table(n == 8); sfx = '_avx512' if n == 8 else '_avx'
-        for kn in ('add' + sfx, 'sub' + sfx, 'mult' + sfx): obs.append(Ob('contract/%s' % kn, lanes.ob_kernel, (cfg, lanes.MODS[cfg], kn, T[kn], n)))
+        from .. import fmode
+        for kn in fmode.lane_contracts(n): obs.append(Ob('contract/%s' % kn, lanes.ob_kernel, (cfg, lanes.MODS[cfg], kn, T[kn], n)))
     return obs
 def extra_evidence(ctx):
     return dict(census_overloads=META.get('_census'), uncovered=list(overloads.UNCOVERED), uncovered_count=len(overloads.UNCOVERED))
